@@ -483,6 +483,10 @@ class Lib:
                 raise self.E.Unsupported("callee %s needs %s" % (callee.target, key))
             bound[key] = st.env[key]
         for pn in pnames:
+            if pn not in bound and pn.startswith("ghost_") and pn in st.env:
+                bound[pn] = st.env[pn]          # ghost state is threaded implicitly
+                argnodes[pn] = ast.Name(id=pn, ctx=ast.Load())
+        for pn in pnames:
             if pn not in bound:
                 d = getattr(callee, "defaults", {}).get(pn)
                 if d is None:
@@ -551,6 +555,10 @@ class Lib:
                     ex.assume(st, fct)
             s3 = st.fork()
             s3.env = dict(post_env)
+            for gname, gty in callee.ghost_returns.items():
+                gv = ex.fresh(gname, parse_type(gty))
+                s3.env[gname] = gv
+                st.env[gname] = gv
             s3.env["result"] = res
             s3.old = dict(bound)
             s3.hyps = st.hyps
